@@ -9,12 +9,20 @@ PRELUDE = r'''
 pub trait AssetTransfer { fn transfer_asset_and_amount(&self) -> Option<(IbcPrefixed, u128)>; }
 #[derive(Clone, Debug)] pub struct InitBridgeAccount { pub rollup_id: RollupId, pub asset: asset::Denom, pub fee_asset: asset::Denom, pub sudo_address: Option<Address>, pub withdrawer_address: Option<Address> }
 #[derive(Clone, Copy, Debug)] pub enum FeeAssetChange { Addition(Denom), Removal(Denom) }
-/// fee components of one action kind (FeeComponents<F> in astria-core): the kind is carried as a value
-#[derive(Clone, Copy, Debug, PartialEq, Eq)] pub struct Fees { pub kind: u8, pub base: u128, pub multiplier: u128 }
+/// fee components of one action kind: FeeComponents<F> of astria-core, generic over a marker type per action kind as in the real crate
+pub trait FeeHandler { const KIND: u8; fn snake_case_name() -> &'static str { "" } }
+pub mod fee_kind { ''' + " ".join("#[derive(Clone, Copy, Debug, PartialEq, Eq)] pub struct %s; impl super::FeeHandler for %s { const KIND: u8 = %d; }" % (k, k, i) for i, k in enumerate(KINDS)) + r''' }
+#[derive(Debug, PartialEq, Eq)] pub struct FeeComponents<F> { pub base: u128, pub multiplier: u128, pub _p: std::marker::PhantomData<F> }
+impl<F> Clone for FeeComponents<F> { fn clone(&self) -> Self { *self } }
+impl<F> Copy for FeeComponents<F> {}
+impl<F> FeeComponents<F> { pub fn new(base: u128, multiplier: u128) -> Self { FeeComponents { base, multiplier, _p: std::marker::PhantomData } } pub fn base(&self) -> u128 { self.base } pub fn multiplier(&self) -> u128 { self.multiplier } }
+pub struct StoredValue<'a> { pub kind: u8, pub base: u128, pub multiplier: u128, pub _p: std::marker::PhantomData<&'a ()> }
+impl<'a, F: FeeHandler> From<FeeComponents<F>> for StoredValue<'a> { fn from(f: FeeComponents<F>) -> Self { StoredValue { kind: F::KIND, base: f.base, multiplier: f.multiplier, _p: std::marker::PhantomData } } }
 #[derive(Clone, Copy, Debug)]
-pub enum FeeChange { ''' + ", ".join("%s(Fees)" % k for k in KINDS) + r''' }
+pub enum FeeChange { ''' + ", ".join("%s(FeeComponents<fee_kind::%s>)" % (k, k) for k in KINDS) + r''' }
 pub trait FeesWriteShim2: StateWrite {
-    fn put_fees(&mut self, f: Fees) -> Result<()> { store().put(Key::Fees(f.kind), f.base); store().put(Key::Fees(f.kind | 0x80), f.multiplier); Ok(()) }
+    fn put_fees<'a, F>(&mut self, f: FeeComponents<F>) -> Result<()> where F: FeeHandler, StoredValue<'a>: From<FeeComponents<F>> {
+        let v: StoredValue<'a> = f.into(); store().put(Key::Fees(v.kind), v.base); store().put(Key::Fees(v.kind | 0x80), v.multiplier); Ok(()) }
 }
 impl<T: StateWrite + ?Sized> FeesWriteShim2 for T {}
 /// `state.allowed_fee_assets().try_collect::<HashSet<_>>()`: a view of the set of allowed fee assets.
@@ -55,7 +63,7 @@ HARNESS = r'''
             assert!(store().unchanged_except(&ks));
         } else { assert!(store().nothing_written()); }
     }
-    fn fee_change_for(k: u8, action: FeeChange, f: Fees) {
+    fn fee_change_for(k: u8, action: FeeChange, f: (u128, u128)) {
         reset_store();
         let signer: [u8; ADDRESS_LEN] = kani::any();
         store().declare(Key::Sudo); store().declare(Key::Fees(k)); store().declare(Key::Fees(k | 0x80));
@@ -63,64 +71,64 @@ HARNESS = r'''
         let r = checked.execute(State);
         if r.is_ok() {
             assert!(store().peek_init(Key::Sudo).map(val_addr) == Some(signer));     // the fee schedule changes only for the current sudo
-            assert!(store().peek(Key::Fees(k)) == Some(f.base) && store().peek(Key::Fees(k | 0x80)) == Some(f.multiplier));   // exactly the named action's components
+            assert!(store().peek(Key::Fees(k)) == Some(f.0) && store().peek(Key::Fees(k | 0x80)) == Some(f.1));   // exactly the named action's components
             assert!(store().unchanged_except(&[Key::Fees(k), Key::Fees(k | 0x80)]));
         } else { assert!(store().nothing_written()); }
     }
     #[kani::proof]
     #[kani::unwind(10)]
-    fn fee_change_contract_transfer() { let f = Fees { kind: 0, base: kani::any(), multiplier: kani::any() }; fee_change_for(0, FeeChange::Transfer(f), f); }
+    fn fee_change_contract_transfer() { let f: (u128, u128) = (kani::any(), kani::any()); fee_change_for(0, FeeChange::Transfer(FeeComponents::new(f.0, f.1)), f); }
     #[kani::proof]
     #[kani::unwind(10)]
-    fn fee_change_contract_rollupdatasubmission() { let f = Fees { kind: 1, base: kani::any(), multiplier: kani::any() }; fee_change_for(1, FeeChange::RollupDataSubmission(f), f); }
+    fn fee_change_contract_rollupdatasubmission() { let f: (u128, u128) = (kani::any(), kani::any()); fee_change_for(1, FeeChange::RollupDataSubmission(FeeComponents::new(f.0, f.1)), f); }
     #[kani::proof]
     #[kani::unwind(10)]
-    fn fee_change_contract_ics20withdrawal() { let f = Fees { kind: 2, base: kani::any(), multiplier: kani::any() }; fee_change_for(2, FeeChange::Ics20Withdrawal(f), f); }
+    fn fee_change_contract_ics20withdrawal() { let f: (u128, u128) = (kani::any(), kani::any()); fee_change_for(2, FeeChange::Ics20Withdrawal(FeeComponents::new(f.0, f.1)), f); }
     #[kani::proof]
     #[kani::unwind(10)]
-    fn fee_change_contract_initbridgeaccount() { let f = Fees { kind: 3, base: kani::any(), multiplier: kani::any() }; fee_change_for(3, FeeChange::InitBridgeAccount(f), f); }
+    fn fee_change_contract_initbridgeaccount() { let f: (u128, u128) = (kani::any(), kani::any()); fee_change_for(3, FeeChange::InitBridgeAccount(FeeComponents::new(f.0, f.1)), f); }
     #[kani::proof]
     #[kani::unwind(10)]
-    fn fee_change_contract_bridgelock() { let f = Fees { kind: 4, base: kani::any(), multiplier: kani::any() }; fee_change_for(4, FeeChange::BridgeLock(f), f); }
+    fn fee_change_contract_bridgelock() { let f: (u128, u128) = (kani::any(), kani::any()); fee_change_for(4, FeeChange::BridgeLock(FeeComponents::new(f.0, f.1)), f); }
     #[kani::proof]
     #[kani::unwind(10)]
-    fn fee_change_contract_bridgeunlock() { let f = Fees { kind: 5, base: kani::any(), multiplier: kani::any() }; fee_change_for(5, FeeChange::BridgeUnlock(f), f); }
+    fn fee_change_contract_bridgeunlock() { let f: (u128, u128) = (kani::any(), kani::any()); fee_change_for(5, FeeChange::BridgeUnlock(FeeComponents::new(f.0, f.1)), f); }
     #[kani::proof]
     #[kani::unwind(10)]
-    fn fee_change_contract_bridgesudochange() { let f = Fees { kind: 6, base: kani::any(), multiplier: kani::any() }; fee_change_for(6, FeeChange::BridgeSudoChange(f), f); }
+    fn fee_change_contract_bridgesudochange() { let f: (u128, u128) = (kani::any(), kani::any()); fee_change_for(6, FeeChange::BridgeSudoChange(FeeComponents::new(f.0, f.1)), f); }
     #[kani::proof]
     #[kani::unwind(10)]
-    fn fee_change_contract_ibcrelay() { let f = Fees { kind: 7, base: kani::any(), multiplier: kani::any() }; fee_change_for(7, FeeChange::IbcRelay(f), f); }
+    fn fee_change_contract_ibcrelay() { let f: (u128, u128) = (kani::any(), kani::any()); fee_change_for(7, FeeChange::IbcRelay(FeeComponents::new(f.0, f.1)), f); }
     #[kani::proof]
     #[kani::unwind(10)]
-    fn fee_change_contract_validatorupdate() { let f = Fees { kind: 8, base: kani::any(), multiplier: kani::any() }; fee_change_for(8, FeeChange::ValidatorUpdate(f), f); }
+    fn fee_change_contract_validatorupdate() { let f: (u128, u128) = (kani::any(), kani::any()); fee_change_for(8, FeeChange::ValidatorUpdate(FeeComponents::new(f.0, f.1)), f); }
     #[kani::proof]
     #[kani::unwind(10)]
-    fn fee_change_contract_feeassetchange() { let f = Fees { kind: 9, base: kani::any(), multiplier: kani::any() }; fee_change_for(9, FeeChange::FeeAssetChange(f), f); }
+    fn fee_change_contract_feeassetchange() { let f: (u128, u128) = (kani::any(), kani::any()); fee_change_for(9, FeeChange::FeeAssetChange(FeeComponents::new(f.0, f.1)), f); }
     #[kani::proof]
     #[kani::unwind(10)]
-    fn fee_change_contract_feechange() { let f = Fees { kind: 10, base: kani::any(), multiplier: kani::any() }; fee_change_for(10, FeeChange::FeeChange(f), f); }
+    fn fee_change_contract_feechange() { let f: (u128, u128) = (kani::any(), kani::any()); fee_change_for(10, FeeChange::FeeChange(FeeComponents::new(f.0, f.1)), f); }
     #[kani::proof]
     #[kani::unwind(10)]
-    fn fee_change_contract_ibcrelayerchange() { let f = Fees { kind: 11, base: kani::any(), multiplier: kani::any() }; fee_change_for(11, FeeChange::IbcRelayerChange(f), f); }
+    fn fee_change_contract_ibcrelayerchange() { let f: (u128, u128) = (kani::any(), kani::any()); fee_change_for(11, FeeChange::IbcRelayerChange(FeeComponents::new(f.0, f.1)), f); }
     #[kani::proof]
     #[kani::unwind(10)]
-    fn fee_change_contract_sudoaddresschange() { let f = Fees { kind: 12, base: kani::any(), multiplier: kani::any() }; fee_change_for(12, FeeChange::SudoAddressChange(f), f); }
+    fn fee_change_contract_sudoaddresschange() { let f: (u128, u128) = (kani::any(), kani::any()); fee_change_for(12, FeeChange::SudoAddressChange(FeeComponents::new(f.0, f.1)), f); }
     #[kani::proof]
     #[kani::unwind(10)]
-    fn fee_change_contract_ibcsudochange() { let f = Fees { kind: 13, base: kani::any(), multiplier: kani::any() }; fee_change_for(13, FeeChange::IbcSudoChange(f), f); }
+    fn fee_change_contract_ibcsudochange() { let f: (u128, u128) = (kani::any(), kani::any()); fee_change_for(13, FeeChange::IbcSudoChange(FeeComponents::new(f.0, f.1)), f); }
     #[kani::proof]
     #[kani::unwind(10)]
-    fn fee_change_contract_bridgetransfer() { let f = Fees { kind: 14, base: kani::any(), multiplier: kani::any() }; fee_change_for(14, FeeChange::BridgeTransfer(f), f); }
+    fn fee_change_contract_bridgetransfer() { let f: (u128, u128) = (kani::any(), kani::any()); fee_change_for(14, FeeChange::BridgeTransfer(FeeComponents::new(f.0, f.1)), f); }
     #[kani::proof]
     #[kani::unwind(10)]
-    fn fee_change_contract_recoveribcclient() { let f = Fees { kind: 15, base: kani::any(), multiplier: kani::any() }; fee_change_for(15, FeeChange::RecoverIbcClient(f), f); }
+    fn fee_change_contract_recoveribcclient() { let f: (u128, u128) = (kani::any(), kani::any()); fee_change_for(15, FeeChange::RecoverIbcClient(FeeComponents::new(f.0, f.1)), f); }
     #[kani::proof]
     #[kani::unwind(10)]
-    fn fee_change_contract_currencypairschange() { let f = Fees { kind: 16, base: kani::any(), multiplier: kani::any() }; fee_change_for(16, FeeChange::CurrencyPairsChange(f), f); }
+    fn fee_change_contract_currencypairschange() { let f: (u128, u128) = (kani::any(), kani::any()); fee_change_for(16, FeeChange::CurrencyPairsChange(FeeComponents::new(f.0, f.1)), f); }
     #[kani::proof]
     #[kani::unwind(10)]
-    fn fee_change_contract_marketschange() { let f = Fees { kind: 17, base: kani::any(), multiplier: kani::any() }; fee_change_for(17, FeeChange::MarketsChange(f), f); }
+    fn fee_change_contract_marketschange() { let f: (u128, u128) = (kani::any(), kani::any()); fee_change_for(17, FeeChange::MarketsChange(FeeComponents::new(f.0, f.1)), f); }
     #[kani::proof]
     #[kani::unwind(10)]
     fn fee_asset_change_contract() {
